@@ -26,6 +26,7 @@ type Env struct {
 	point    *ssa.BasicBlock
 	depth    int
 	cells    map[string]V // captured variables of a closure callee (pointers to their cells)
+	trigs    *[]string    // trig(t, body) terms collected for the innermost enclosing quantifier
 }
 
 func (e *Env) child() *Env {
@@ -667,6 +668,20 @@ func isSliceT(t types.Type) bool {
 }
 
 func (e *Env) evalQuant(n *CQuant) V {
+	binders, rng, body, pattern := e.evalQuantParts(n)
+	if n.Forall {
+		if pattern != "" {
+			return V{T: boolT, S: "(forall (" + binders + ") (! " + implies(rng, body) + pattern + "))"}
+		}
+		return V{T: boolT, S: "(forall (" + binders + ") " + implies(rng, body) + ")"}
+	}
+	return V{T: boolT, S: "(exists (" + binders + ") " + and(rng, body) + ")"}
+}
+
+// evalQuantParts evaluates a quantifier to its binder list, range condition, body and
+// optional pattern annotation. Directly nested typed foralls are flattened into one
+// quantifier (so that one trigger can mention all bound variables).
+func (e *Env) evalQuantParts(n *CQuant) (string, string, string, string) {
 	x := e.x
 	ce := e.child()
 	bound := "q_" + sanitize(n.Var)
@@ -717,14 +732,18 @@ func (e *Env) evalQuant(n *CQuant) V {
 		ce.names[n.Var] = V{T: t, S: bound}
 		rng = x.s.typeInv(t, bound)
 	}
-	body := ce.evalBool(n.Body)
-	if n.Forall {
-		if pattern != "" {
-			return V{T: boolT, S: "(forall ((" + bound + " " + sortName + ")) (! " + implies(rng, body) + pattern + "))"}
-		}
-		return V{T: boolT, S: "(forall ((" + bound + " " + sortName + ")) " + implies(rng, body) + ")"}
+	binders := "(" + bound + " " + sortName + ")"
+	if inner, ok := n.Body.(*CQuant); ok && n.Forall && inner.Forall && n.Lo == nil && inner.Var != n.Var {
+		ib, irng, ibody, ipat := ce.evalQuantParts(inner)
+		return binders + " " + ib, and(rng, irng), ibody, ipat
 	}
-	return V{T: boolT, S: "(exists ((" + bound + " " + sortName + ")) " + and(rng, body) + ")"}
+	var trigs []string
+	ce.trigs = &trigs
+	body := ce.evalBool(n.Body)
+	if len(trigs) > 0 && n.Forall {
+		pattern = " :pattern (" + strings.Join(trigs, " ") + ")"
+	}
+	return binders, rng, body, pattern
 }
 
 func (e *Env) resolveType(name string) types.Type {
@@ -831,6 +850,25 @@ func (e *Env) evalCall(n *CCall) V {
 		case "int", "math":
 			v := e.eval(n.Args[0])
 			return mathV(x.toMathInt(v))
+		case "trig":
+			// trig(t, body): body, with t as the trigger of the innermost enclosing forall
+			if len(n.Args) != 2 {
+				e.fail("trig takes a trigger term and a body")
+			}
+			if e.trigs == nil {
+				e.fail("trig outside a quantifier")
+			}
+			tv := e.eval(n.Args[0])
+			*e.trigs = append(*e.trigs, tv.S)
+			return e.eval(n.Args[1])
+		case "crc32ieee":
+			// crc32ieee(s): crc32.ChecksumIEEE([]byte(s)) - the same function the model of the
+			// library call uses (lib.go)
+			sv := e.eval(n.Args[0])
+			x.s.declareUF("crc32_str", "("+x.s.strSort()+")", "Int")
+			r := x.define("crc", "Int", "(crc32_str "+sv.S+")")
+			x.s.onceAssert("(forall ((s " + x.s.strSort() + ")) (! (and (<= 0 (crc32_str s)) (<= (crc32_str s) 4294967295)) :pattern ((crc32_str s))))")
+			return V{T: types.Typ[types.Uint32], S: r}
 		case "errIs":
 			a := e.eval(n.Args[0])
 			b := e.eval(n.Args[1])
@@ -1051,6 +1089,7 @@ func (e *Env) callSpec(sf *SpecFunc, args []CExpr) V {
 			terms = append(terms, e.x.define("ga", sorts[len(sorts)-1], v.S))
 		}
 		name := "ghost_" + sanitize(sf.Pkg) + "_" + sf.Name
+		defer e.emitAxioms(sf)
 		if sf.Ret == "int" || sf.Ret == "math" {
 			e.x.s.declareUF(name, "("+strings.Join(sorts, " ")+")", "Int")
 			return V{Math: true, S: "(" + name + " " + strings.Join(terms, " ") + ")"}
@@ -1068,6 +1107,38 @@ func (e *Env) callSpec(sf *SpecFunc, args []CExpr) V {
 		return V{T: rt, S: term}
 	}
 	return ne.eval(sf.Body)
+}
+
+// emitAxioms asserts (once per script, in the prelude) every axiom of sf's package
+// that mentions sf. Axioms are closed formulas evaluated in the entry state.
+func (e *Env) emitAxioms(sf *SpecFunc) {
+	x := e.x
+	for _, ax := range x.cs.Axioms[sf.Pkg] {
+		if !strings.Contains(ax.Src, sf.Name+"(") {
+			continue
+		}
+		key := "axiom:" + ax.Pkg + "." + ax.Name
+		if x.s.uf[key] {
+			continue
+		}
+		x.s.uf[key] = true
+		ne := &Env{x: x, pkg: x.prog.typesPkg(ax.Pkg), names: map[string]V{}, cur: e.old, old: e.old, depth: e.depth + 1}
+		if ne.cur == nil {
+			ne.cur, ne.old = e.cur, e.cur
+		}
+		x.noDefine++
+		term := ne.evalBool(ax.E)
+		x.noDefine--
+		x.s.onceAssert(term)
+		x.trust("definitional axiom " + ax.Name + " (" + shortPkg(ax.Pkg) + "): " + ax.Src)
+	}
+}
+
+func shortPkg(p string) string {
+	if i := strings.LastIndex(p, "/"); i >= 0 {
+		return p[i+1:]
+	}
+	return p
 }
 
 // callGo evaluates a call to a real Go function inside a specification by
